@@ -52,7 +52,7 @@ TRUSTED_BASE = [
     "connectivity classes (C06_components), and compared on every case)",
 ]
 ASSUMPTIONS = ["graphs are simple undirected networkx Graphs without self-loops with distinct node ids (premise gwf of the theorems; "
-               "evaluated by the model on every case: gwfb, first flag of the observable)",
+               "evaluated by the model on every case: wfb, first flag of the observable; C06_input_premise_monitor)",
                "hcount, when present, is a non-negative int",
                "attribute values are JSON scalars compared with Python ==",
                "strict_cc_count=True with more host than pattern components is the documented guard (comp: [], bt: exhaustive) - "
@@ -62,18 +62,17 @@ ASSUMPTIONS = ["graphs are simple undirected networkx Graphs without self-loops 
                "C06_limits_guard_reachable; accepted by the oracle"]
 TESTED_NOT_PROVED = ["inputs are not modified (pure model; the adapter deep-compares host and pattern before/after every call)",
                      "Strategy.from_string dispatch (strings 'all'/'comp'/'bt' and enum members)",
-                     "_quick_pre_filter verdicts (modelled and compared; proved only: it can only empty the result)",
                      "the VF2 contract itself (monitored, see TRUSTED_BASE)"]
-LEVEL_TEXT = ("Machine-checked proof (Coq, all inputs, 11 theorems closed under the global context) over an executable, "
+LEVEL_TEXT = ("Machine-checked proof (Coq, all inputs, 13 theorems closed under the global context) over an executable, "
               "structure-following model of SubgraphSearchEngine.find_subgraph_mappings parameterised by the VF2 enumeration: "
               "ALL = exactly the label-preserving monomorphisms, duplicate-free (under the VF2 contract, which the verified enumerator "
               "provably meets); COMPONENT = exactly those sending different pattern components into different host components, duplicate-free, all of "
               "them when the host has fewer components, [] under the strict_cc_count guard; BACKTRACK = COMPONENT if non-empty else ALL; "
               "for every max_results/threshold the result is the prefix of length min of the unlimited list, emptied past the threshold, "
-              "or (comp/bt) the per-component enumeration guard fired.  Model tied to the code on every run by comparing result "
+              "or (comp/bt) the per-component enumeration guard fired; the pre-filter skips only when there is provably no match or its documented estimate guard fired.  Model tied to the code on every run by comparing result "
               "multisets/lists, component partitions and pre-filter verdicts on exhaustive small scopes and random populations.")
 LEVEL_NOTE = ("Trusted: Coq kernel, the model, the harness encoder, the VF2 contract (monitored per case; networkx itself is not "
-              "verified).  Not proved: input immutability of the Python code (monitored), pre-filter verdicts (compared).")
+              "verified).  Not proved: input immutability of the Python code (monitored).")
 TECHNIQUE = "Coq 8.16 proof about an executable Gallina model + per-run correspondence (vm_compute digest vs implementation) + independent brute-force property oracle"
 DESIGN_REF = "DESIGN.md section 5 C06, Appendix A.1; notes/C06.md"
 
